@@ -135,19 +135,21 @@ static void asan_cb(const char *rep) {
   }
   if (r.find("WRITE of size") != std::string::npos) acc = "WRITE";
   else if (r.find("READ of size") != std::string::npos) acc = "READ";
-  // first frame inside the repository (path contains /repo/)
+  // first frame inside the repository (path contains /repo/, or the scratch worktree named by VERIF_REPO)
+  const char *rr = getenv("VERIF_REPO");
+  const std::string marker = std::string(rr && *rr ? rr : "/repo") + "/";
   auto first_repo_frame = [&](size_t from) {
     size_t q = from;
     while ((q = r.find("\n    #", q)) != std::string::npos) {
       size_t eol = r.find('\n', q + 1);
       std::string line = r.substr(q + 1, eol - q - 1);
-      size_t rp = line.find("/repo/");
+      size_t rp = line.find(marker);
       if (rp != std::string::npos) {
         size_t in = line.find(" in ");
         std::string fn = in != std::string::npos ? line.substr(in + 4, rp - in - 5) : "";
         size_t par = fn.find('(');
         if (par != std::string::npos) fn = fn.substr(0, par);
-        std::string loc = line.substr(rp + 6);
+        std::string loc = line.substr(rp + marker.size());
         size_t col = loc.find(':');
         size_t col2 = col == std::string::npos ? col : loc.find(':', col + 1);
         if (col2 != std::string::npos) loc = loc.substr(0, col2);
